@@ -21,3 +21,8 @@ CHECKS["C11"] = ("exploration",
    "Every whole-day serial 0..=2958465 in both date systems is converted by the real code and compared with an independent civil-from-days algorithm; fractional serials around millisecond/second/day boundaries, specials (huge, infinite, NaN, negative), durations, plain Int/Float cells, DataRef, ISO strings and the deserialize_as_* helpers are sampled; monotonicity is checked on consecutive days and on sampled pairs.",
    "trusts chrono for NaiveDate construction/comparison; ties within float error of the ms rounding accept both neighbours; serials in [60,61) only weakly constrained",
    "DESIGN.md §7 C11")
+CHECKS["C15"] = ("exploration",
+   "runtime monitoring: token-level reference translation vs files read through worksheet_formula; direct hook sweep with culprit isolation",
+   "Master formulas are generated as token lists over the reference grammar; shared groups (column/row/block, non-monotone si, master anywhere) are written into xlsx files and every member's reported formula is compared with the token-level translation; the translation routine is additionally swept directly through a hook over (text, offset) pairs. A failing member is attributed to the token kinds the real routine mistranslates in isolation.",
+   "references are generated so that translations stay inside the sheet; whole-row/column references are not generated; trusted base: the xlsx reference encoder",
+   "DESIGN.md §7 C15")
